@@ -208,6 +208,15 @@ func runC14(r *Run) {
 		if giveExcCls {
 			opts = append(opts, clgrpc.WithLimitExceededResponseClassifier(excCls))
 		}
+		// naming options may appear anywhere in the option list and must not disturb the others
+		if t.Chance(40, "with-name") {
+			pos := t.Intn(len(opts)+1, "name-pos")
+			opts = append(opts[:pos], append([]clgrpc.InterceptorOption{clgrpc.WithName("svc")}, opts[pos:]...)...)
+		}
+		if t.Chance(30, "with-tags") {
+			pos := t.Intn(len(opts)+1, "tags-pos")
+			opts = append(opts[:pos], append([]clgrpc.InterceptorOption{clgrpc.WithTags([]string{"k:v"})}, opts[pos:]...)...)
+		}
 		srv := clgrpc.UnaryServerInterceptor(opts...)
 		cli := clgrpc.UnaryClientInterceptor(opts...)
 		for i := 0; i < nOps; i++ {
@@ -306,6 +315,10 @@ func runC14(r *Run) {
 		}
 		if giveExcCls {
 			opts = append(opts, clgrpc.WithStreamRecvLimitExceededResponseClassifier(excCls), clgrpc.WithStreamSendLimitExceededResponseClassifier(excCls))
+		}
+		if t.Chance(40, "with-stream-names") {
+			pos := t.Intn(len(opts)+1, "name-pos")
+			opts = append(opts[:pos], append([]clgrpc.StreamInterceptorOption{clgrpc.WithStreamRecvName("r"), clgrpc.WithStreamSendName("s")}, opts[pos:]...)...)
 		}
 		ic := clgrpc.StreamServerInterceptor(opts...)
 		sctx, scancel := context.WithCancel(bg)
